@@ -129,6 +129,20 @@ def applyTablets (c : Consumer) : Consumer :=
 def Consumer.start (sub : Bool) (filter : Nat) (t0 : Topo) : Consumer :=
   { hasSubscriber := sub, published := t0, filter := filter, views := viewsOf filter t0 }
 
+/-- The pools of the state built from topology `t` (`calculate_new_topology`, state.rs:291-331): an enabled node that was
+enabled before with the same dc and rack keeps its `Node` - or, if only its address changed, a new `Node` that inherits
+the pool (`inherit_with_ip_changed`) - so its pool is KEPT; every other enabled node gets a brand-new pool (`fresh addr`);
+a disabled node has none. Entries: host ↦ (dc, rack, pool). -/
+def poolsFor (filter : Nat) (old : List (Nat × Nat × Nat × C19PoolInit.Pool)) (fresh : Nat → C19PoolInit.Pool)
+    (t : Topo) : List (Nat × Nat × Nat × C19PoolInit.Pool) :=
+  t.nodes.filterMap fun n =>
+    if accepts filter n then
+      match old.find? (fun p => p.1 == n.host) with
+      | some (h, d, r, pool) =>
+        if d == n.dc && r == n.rack then some (h, d, r, pool) else some (n.host, n.dc, n.rack, fresh n.addr)
+      | none => some (n.host, n.dc, n.rack, fresh n.addr)
+    else none
+
 /-- Producer → slot → consumer. -/
 structure Pipe where
   slot : Option Update := none
